@@ -83,17 +83,19 @@ type Out struct {
 
 // Trace of a run.
 type Trace struct {
-	Spin           bool // the case exceeded its real-time budget twice (a goroutine spins); only Deadlock is set then
-	Outs           []Out
-	WStart, WDone  []int64 // per element (unite: per element of the slice, same value for all of a slice)
-	SliceOf        []int   // unite: index of the input slice an element belongs to
-	InLens         []int   // lengths of the input slices actually written (unite) / 1 per element (join)
-	CloseAt        int64
-	ClosedAt       int64 // consumer saw Output() closed; -1 never
-	ClosedBlocking bool  // ... through a receive that was already blocked before Stop() returned
-	NewErr         string
-	Deadlock       string
-	Leaked         []string
+	HarnessPanic     string // a panic of the harness itself (never blamed on the library)
+	RetriedAfterSpin bool
+	Spin             bool // the case exceeded its real-time budget twice (a goroutine spins); only Deadlock is set then
+	Outs             []Out
+	WStart, WDone    []int64 // per element (unite: per element of the slice, same value for all of a slice)
+	SliceOf          []int   // unite: index of the input slice an element belongs to
+	InLens           []int   // lengths of the input slices actually written (unite) / 1 per element (join)
+	CloseAt          int64
+	ClosedAt         int64 // consumer saw Output() closed; -1 never
+	ClosedBlocking   bool  // ... through a receive that was already blocked before Stop() returned
+	NewErr           string
+	Deadlock         string
+	Leaked           []string
 
 	ExtraDuringHold  int // slices available on Output() while a no-copy slice was held
 	StopIssuedAt     int64
@@ -497,9 +499,7 @@ func execute1(t *testing.T, s Script, leakScan bool, budget time.Duration) Trace
 		return Trace{Spin: true, Deadlock: res.Deadlock, ClosedAt: -1, StopIssuedAt: -1, StopReturnedAt: -1}
 	}
 	tr.Deadlock = res.Deadlock
-	if res.Panic != "" {
-		tr.Deadlock = "harness panic: " + res.Panic
-	}
+	tr.HarnessPanic = res.Panic
 	return tr
 }
 
@@ -510,6 +510,7 @@ func Execute(t *testing.T, s Script, leakScan bool) Trace {
 	tr := execute1(t, s, leakScan, b)
 	if tr.Spin && b > 0 {
 		tr = execute1(t, s, leakScan, 3*b)
+		tr.RetriedAfterSpin = true
 	}
 	return tr
 }
